@@ -521,3 +521,44 @@ impl<'dbg> DqeExecutor<'dbg> {
         }
     }
 }
+
+#[cfg(feature = "verif")]
+impl<'dbg> DqeExecutor<'dbg> {
+    /// verification hook: the variable DIEs `variable_die_by_selector` picks at the current location:
+    /// (unit-relative DIE offset, name, `FatDieRef<Variable>::ranges()`)
+    #[allow(clippy::type_complexity)]
+    pub fn verif_variable_dies(
+        &self,
+        selector: &Selector,
+    ) -> Result<Vec<(usize, Option<String>, Option<Vec<(u64, u64)>>)>, Error> {
+        Ok(self
+            .variable_die_by_selector(selector)?
+            .into_iter()
+            .map(|v| {
+                let die = v.deref_ensure();
+                (
+                    die.offset().0,
+                    die.name(),
+                    v.ranges()
+                        .map(|rs| rs.iter().map(|r| (r.begin, r.end)).collect()),
+                )
+            })
+            .collect())
+    }
+
+    /// verification hook: for every variable DIE picked by the selector, the bytes of the location
+    /// expression `Location::try_as_expression` chooses at the current pc (None = no location)
+    pub fn verif_variable_locations(
+        &self,
+        selector: &Selector,
+    ) -> Result<Vec<(usize, Option<String>, Option<Vec<u8>>)>, Error> {
+        Ok(self
+            .variable_die_by_selector(selector)?
+            .into_iter()
+            .map(|v| {
+                let die = v.deref_ensure();
+                (die.offset().0, die.name(), v.verif_location_bytes(self.debugger.ecx().location().global_pc))
+            })
+            .collect())
+    }
+}
